@@ -54,7 +54,8 @@ type keySharePrivateKeys struct {
 	curveID    CurveID
 	ecdhe      *ecdh.PrivateKey
 	mlkem      *mlkem.DecapsulationKey768
-	mlkemEcdhe *ecdh.PrivateKey // [uTLS] seperate ecdhe key for pq keyshare in line with Chrome, instead of reusing ecdhe key like stdlib
+	mlkemEcdhe *ecdh.PrivateKey   // [uTLS] seperate ecdhe key for pq keyshare in line with Chrome, instead of reusing ecdhe key like stdlib
+	extraEcdhe []*ecdh.PrivateKey // [uTLS] keys of the classical key shares a spec lists after the first one
 }
 
 const x25519PublicKeySize = 32
